@@ -783,6 +783,26 @@ fn merge(into: &mut SubStats, from: SubStats, max_samples: usize) {
     into.violations.extend(from.violations);
 }
 
+/// Body of every libtest entry point of the harness: run (or replay) the sub-checks, write the
+/// evidence, and leave the process with 0 (held) / 1 (violation). libtest's own failure status 101
+/// is reserved for harness errors and mapped to "inconclusive" by ./check.
+pub fn run_main(env: Env, level: &'static str, subs: Vec<Sub>) -> ! {
+    println!();
+    let replay = env.replay.clone();
+    let mut report = Report::new(env, level);
+    if let Some(path) = replay {
+        let reproduced = report.replay(&subs, &path);
+        let n = report.finish();
+        println!("[verif] replay {}: {}", path, if reproduced { "violation reproduced" } else { "no violation" });
+        std::process::exit(if n > 0 { 1 } else { 0 });
+    }
+    for s in &subs {
+        report.run(s);
+    }
+    let n = report.finish();
+    std::process::exit(if n > 0 { 1 } else { 0 });
+}
+
 // ---------------------------------------------------------------------------------------------
 // small helpers used by several properties
 // ---------------------------------------------------------------------------------------------
